@@ -48,6 +48,18 @@ class Case:
         self.cid = cid; self.spec = spec; self.cores = cores; self.cpuset = cpuset; self.filetext = filetext
         self.form = form_of(spec); self.kind = kind or self.form
 
+    def binding_form(self):
+        """which of the three documented binding syntaxes the description that reaches parse_binding_parameter uses
+        (the last description of this rank: the only one parsec_vpmap_init_from_file keeps today)"""
+        last = None
+        for l in (self.filetext or '').split('\n'):
+            if ':' in l and (l.startswith(':') or re.match(r'\s*0+\s*:', l)):
+                last = l
+        if last is None: return 'none'
+        f = last.split(':', 2)
+        b = f[2] if len(f) > 2 else ''
+        return 'mask' if 'x' in b else 'range' if ';' in b else 'list' if b.strip() else 'empty'
+
     def ident(self):
         return hashlib.sha1(repr((self.spec if self.filetext is None else 'file', self.cores, sorted(self.cpuset) if self.cpuset else None, self.filetext)).encode()).hexdigest()[:16]
 
@@ -100,7 +112,9 @@ def gen_cases(rng, n, ncpu, thorough):
              ('two vps, no binding field', '0:2\n0:1\n'),
              ('three vps mixed', '0:1:1\n:2:0x6\n0:2:0;1\n'),
              ('two vps, mask one char', '0:2:0,1\n0:2:x'),
-             ('two vps, negative and huge counts', '0:-3:0\n0:99999:0\n')]
+             ('two vps, negative and large counts', '0:-3:0\n0:64:0\n'),
+             ('two vps, default range expression at end of file', '0:1:0\n0:1:;'),
+             ('two vps, core range longer than the thread count', '0:1:0\n0:1:0-3\n')]
     pick = files if thorough else [files[j] for j in (0, 1, 2, 3, 4, 5, 7, 8, 12)]
     for j, (kind, txt) in enumerate(pick):
         out.append(Case('f%02d' % j, 'file:@', rng.choice((0, 2, 4)), None, filetext=txt, kind='file: ' + kind))
@@ -151,7 +165,7 @@ def run(ctx):
     for f in glob.glob('/sys/devices/system/cpu/cpu[0-9]*/topology/physical_package_id'):
         packages.add(open(f).read().strip())
     rng = random.Random(ctx.seed * 4001 + 40)
-    cases = gen_cases(rng, 1200 if thorough else 56, ncpu, thorough)
+    cases = gen_cases(rng, 600 if thorough else 56, ncpu, thorough)
 
     def one(c):
         d = os.path.join(ctx.work, 'case-' + c.cid); os.makedirs(d, exist_ok=True)
@@ -177,20 +191,27 @@ def run(ctx):
         if r.stalled or r.timed_out:
             r2 = ctx.run(cmd, env=env, timeout=900, stall_s=150, tag='c40-' + c.cid + '-again')
             if r2.stalled or r2.timed_out:
-                import vfcore
-                return c, r2, what, ('stall', 'vpmap:%s:%s' % (c.form, vfcore.stall_key(r2.backtraces or r.backtraces)))
+                bt = r2.backtraces or r.backtraces or ''
+                site = None
+                main_thread = [b for b in bt.split('\nThread ') if b.startswith('1 (')]       # parsec_init runs on the main thread
+                for fn, loc in re.findall(r'#\d+\s+(?:0x[0-9a-f]+\s+in\s+)?(\S+)\s+\(.*?\)\s+at\s+(\S+)', main_thread[0] if main_thread else bt):
+                    if '/parsec/' in loc and '/verif/' not in loc:
+                        site = fn; break
+                return c, r2, what, ('stall', 'vpmap:%s:stall:%s' % (c.form, site) if site else None)
             r = r2
         return c, r, what, None
 
     prepared = [one(c) for c in cases]
     results = ctx.pmap(lambda p: judge(*p), prepared, jobs=10)
     for c, r, what, stall in results:
-        files = {'case.json': c.describe()}
+        files = {'input.json': c.describe()}
         ctx.add_cov('form_' + c.form); ctx.add_cov('flavour_' + c.flavour)
         if c.cpuset: ctx.add_cov('with_taskset')
         if stall:
-            ctx.violation(stall[1], '%s made no progress twice' % what, r, files)
-            ctx.note_case(c.ident()); continue
+            if stall[1] is None:      # stalled twice but no backtrace of the main thread could be taken: cannot be classified
+                ctx.inconclusive_case('stalled twice, no backtrace: ' + what[:100]); continue
+            ctx.violation(stall[1], '%s made no progress twice (main thread blocked in %s)' % (what, stall[1].split(':')[-1]), r, files)
+            ctx.note_case(c.ident()); ctx.add_cov('stalls'); continue
         s = r.summary()
         abnormal = bool(r.san) or r.signal is not None or 'Assertion' in (r.stderr or '')
         if abnormal:
@@ -199,10 +220,15 @@ def run(ctx):
             head = ''
             for x in r.san:
                 if x.strip(): head = x.strip().splitlines()[0][:200]; break
+            if kind == 'asan':       # the sanitizer's own classification (heap-buffer-overflow, allocation-size-too-big, SEGV, ...) is part of the key
+                m = re.search(r'SUMMARY: AddressSanitizer: (\S+)', ''.join(r.san)) or re.search(r'ERROR: AddressSanitizer: (\S+)', ''.join(r.san))
+                kind = m.group(1) if m else 'asan'
             if kind == 'ubsan' and s and s.get('ok'):
                 key = 'vpmap:%s:ubsan-in:%s' % (c.form, site)
             else:
-                key = 'vpmap:%s:crash-in:%s' % (c.form, site)
+                key = 'vpmap:%s:crash-in:%s:%s' % (c.form, site, kind)
+                if site == 'parse_binding_parameter':
+                    key += ':' + c.binding_form()
             ctx.violation(key, '%s: process ended abnormally (%s) in %s: %s' % (what, kind, site, head or (r.stderr or '')[-200:]), r, files)
             ctx.note_case(c.ident()); ctx.add_cov('abnormal_ends')
             continue
